@@ -102,6 +102,14 @@ func VF_C18_multisig_2_of_3() {
 	vhMultisig(2+vfChoose("extra-key", 0, 1), 2)
 }
 
+//vf:tier quick
+//vf:unwind 64
+//vf:sched all 1
+//vf:redirect github.com/nspcc-dev/neo-go/pkg/vm.bytesToPublicKey => github.com/nspcc-dev/neo-go/pkg/vm.vhKeyFromBytes
+//vf:redirect (*github.com/nspcc-dev/neo-go/pkg/crypto/keys.PublicKey).Verify => github.com/nspcc-dev/neo-go/pkg/vm.vhVerify
+//vf:bound 3 signatures over 3 keys (unmatched signatures in the middle), at most 1 pre-emptive switch
+func VF_C18_multisig_3_of_3() { vhMultisig(3, 3) }
+
 //vf:tier thorough
 //vf:unwind 64
 //vf:sched all 3
